@@ -217,6 +217,10 @@ def main(argv=None):
         from vx import replay
         return replay.run(a.replay)
 
+    if (a.unit or a.no_kani or os.environ.get('VERIF_REPO')) and not os.environ.get('VERIF_EVIDENCE_DIR'):
+        # partial / development runs never overwrite the evidence of the registered check
+        os.environ['VERIF_EVIDENCE_DIR'] = '/tmp/verif-dev-evidence'
+        os.environ.setdefault('VERIF_REPLAY_DIR', '/tmp/verif-dev-replays')
     if prop not in registry.PROPERTIES:
         print(f'UNDECIDED property={prop} reason=not-claimed (see MANIFEST.not_applicable)')
         return 2
